@@ -90,5 +90,17 @@ for periodic in (None, np.array([0, 2])):
             check_sample(tag + '/pool', b, 700, True, pool=pool)
         finally:
             pool.pool.terminate()
+# a likelihood that ignores one parameter: the outer bound becomes a cube /
+# ellipsoid mixture (a cylinder) while the neural bounds stay ellipsoids
+pts = np.hstack([rg.normal(size=(600, 2)) * 0.05 + 0.5, rg.random((600, 1))])
+ll = -np.sum((pts[:, :2] - 0.5)**2, axis=1)
+for nn in (0, 1):
+    tag = 'NautilusBound[flat parameter,networks={}]'.format(nn)
+    b = NautilusBound.compute(pts, ll, np.median(ll), np.log(0.01),
+                              n_networks=nn, rng=np.random.default_rng(4))
+    check_sample(tag + '/serial', b, 700, True)
+    if np.any(b.contains(probe) & ~b.outer_bound.contains(probe)):
+        bad.append(dict(case=tag, what='contains a point outside the outer '
+                        'bound'))
 print(json.dumps(dict(violations=bad[:8])))
 sys.exit(1 if bad else 0)
